@@ -17,6 +17,7 @@ pub mod env;
 pub mod vm;
 
 pub mod c23_header;
+pub mod c25_sanity;
 pub mod c32_descriptor;
 pub mod c33_align;
 
@@ -24,6 +25,7 @@ pub mod c33_align;
 pub fn replay_table() -> Vec<(&'static str, fn(&mut Src))> {
     let mut v: Vec<(&'static str, fn(&mut Src))> = Vec::new();
     v.extend_from_slice(c23_header::TABLE);
+    v.extend_from_slice(c25_sanity::TABLE);
     v.extend_from_slice(c32_descriptor::TABLE);
     v.extend_from_slice(c33_align::TABLE);
     v
